@@ -347,36 +347,128 @@ def rule_contexts(facts):
             r.bad("decode_literal|matched-index", "the matched-literal probability index is not ((1+match_bit)<<8)+symbol",
                   pat.where(lit))
     if dis is not None:
+        # the distance as a function of the decoded slot, evaluated for all 64 slots with symbolic values for the three
+        # sub-decodings (reverse tree X, direct bits G, align bits A)
+        from engine.flow import PosTerms
+        pt = PosTerms(dis)
+        c = cfg(dis)
         tm = Terms(dis)
-        gs, _ = pat.guards(dis)
-        ths = sorted({s[2][1] for (_, t, _, _) in gs for s in [pat.cmp_sides(t)] if s and s[2][0] == "const" and
-                      s[0] in ("Lt", "Gt")})
-        r.sites += 1
-        if 4 in ths and 14 in ths and 3 in ths:
-            r.ok("table", {"distance thresholds": "len_state = min(len,3); slot < 4; slot < 14"})
+        term_at = lambda b_: pt.at(b_.idx, None).of_operand(b_.term.discr)
+        X, G, A = 0x155, 0x2AAAA, 0xB
+
+        def leaf_for(slot, length=5):
+            def leaf(q):
+                if q[0] in ("ok", "try"):
+                    if pat.has_call(q, "parse_reverse_bit_tree"):
+                        return X
+                    if pat.has_call(q, "RangeDecoder::get"):
+                        return G
+                    if pat.has_call(q, "BitTree::parse_reverse"):
+                        return A
+                    if pat.has_call(q, "BitTree::parse"):
+                        return slot
+                if q[0] == "arg" and q[2] == "length":
+                    return length
+                raise pat.NotEvaluable(q)
+            return leaf
+        oks = []
+        for blk in dis.blocks:
+            if blk.cleanup:
+                continue
+            for i, s_ in enumerate(blk.stmts):
+                if s_.k == "assign" and s_.place.local == 0 and not s_.place.proj and s_.rv.k == "aggregate" and s_.rv.agg == "adt" and \
+                        s_.rv.adt_name.endswith("Result") and s_.rv.variant == 0:
+                    oks.append((blk.idx, i, s_.rv.ops[0]))
+        r.sites += 3
+        bad = None
+        try:
+            for slot in range(64):
+                leaf = leaf_for(slot)
+                live = []
+                for (bb, i, op) in oks:
+                    okk = True
+                    for (gb, t, cond) in pat.branch_conditions(dis, c, bb, term_at):
+                        if t[0] == "discr":
+                            continue
+                        try:
+                            if not pat._cond_holds(t, cond, leaf):
+                                okk = False
+                                break
+                        except pat.NotEvaluable:
+                            continue
+                    if okk:
+                        live.append((bb, i, op))
+                if len(live) != 1:
+                    raise pat.NotEvaluable(("return", slot, len(live)))
+                bb, i, op = live[0]
+                if op.place is not None and not op.place.proj:
+                    got = pat.eval_gated(dis, pt, op.place.local, bb, leaf, i)
+                else:
+                    got = pat.eval_term(pt.at(bb, i).of_operand(op), leaf)
+                if slot < 4:
+                    want = slot
+                else:
+                    base = (2 | (slot & 1)) << ((slot >> 1) - 1)
+                    want = base + X if slot < 14 else base + (G << 4) + A
+                if got != want:
+                    bad = "distance slot %d decodes to 0x%x, the format says 0x%x (with reverse-tree value 0x%x, direct bits 0x%x, align 0x%x)" % (
+                        slot, got, want, X, G, A)
+                    break
+        except pat.Overflow as ex:
+            bad = "the distance computation overflows for some slot"
+        except pat.NotEvaluable as ex:
+            r.bad("decode_distance|value-term", "cannot evaluate the decoded distance as a function of the slot (%s)" % (ex.args[0],), pat.where(dis), "unverifiable")
+            bad = None
         else:
-            r.bad("decode_distance|thresholds", "distance decoding thresholds are %s (format: >3, <4, <14)" % ths, pat.where(dis))
-        # the reverse-tree call: num bits = (slot >> 1) - 1, offset = result - slot, base (2 ^ (slot & 1)) << n
+            if bad:
+                r.bad("decode_distance|value", bad, pat.where(dis))
+            else:
+                r.ok("evaluation", {"distance": "slot < 4: slot; else (2|slot&1) << (slot/2-1) + reverse tree (slot < 14) / + direct << 4 + align, all 64 slots"})
+        # arguments of the sub-decodings
         for blk in dis.calls():
-            if (flow.callee(blk.term) or "").endswith("parse_reverse_bit_tree"):
-                nb = tm.of_operand(blk.term.args[1])
-                off = tm.of_operand(blk.term.args[3])
-                okk = nb[0] == "Sub" and nb[2] == ("const", 1) and nb[1][0] == "Shr" and nb[1][2] == ("const", 1) and \
-                    off[0] == "Sub" and pat.has_op(off[1], ("Shl",)) and pat.has_const(off[1], 2) and \
-                    pat.has_field(tm.of_operand(blk.term.args[2]), "pos_decoders")
-                if okk:
-                    r.ok("term", {"footer bits": flow.show(nb)[:60], "table offset": flow.show(off)[:100]})
-                else:
-                    r.bad("decode_distance|reverse-tree", "slot 4-13 decoding does not use n = (slot>>1)-1 bits at offset "
-                          "base - slot of pos_decoders: n=%s offset=%s" % (flow.show(nb)[:50], flow.show(off)[:80]),
-                          pat.where(dis, blk.idx))
-            if (flow.callee(blk.term) or "").endswith("RangeDecoder::get"):
-                a = tm.of_operand(blk.term.args[1])
-                if a[0] == "Sub" and a[2] == ("const", 4):
-                    r.ok("term", {"direct bits": flow.show(a)[:60]})
-                else:
-                    r.bad("decode_distance|direct-bits", "slots >= 14 do not read n - 4 direct bits: %s" % flow.show(a)[:60],
-                          pat.where(dis, blk.idx))
+            nm = flow.callee(blk.term) or ""
+            try:
+                if nm.endswith("parse_reverse_bit_tree"):
+                    okk = pat.has_field(tm.of_operand(blk.term.args[2]), "pos_decoders")
+                    for slot in range(4, 14):
+                        lf = leaf_for(slot)
+                        nb = pat.eval_term(pt.at(blk.idx, None).of_operand(blk.term.args[1]), lf)
+                        off = pat.eval_term(pt.at(blk.idx, None).of_operand(blk.term.args[3]), lf)
+                        base = (2 | (slot & 1)) << ((slot >> 1) - 1)
+                        if nb != (slot >> 1) - 1 or off != base - slot:
+                            okk = False
+                    if okk:
+                        r.ok("evaluation", {"slots 4-13": "reverse tree of slot/2-1 bits at pos_decoders[base - slot]"})
+                    else:
+                        r.bad("decode_distance|reverse-tree", "slots 4-13 do not use slot/2-1 bits at offset base - slot of pos_decoders", pat.where(dis, blk.idx))
+                if nm.endswith("RangeDecoder::get"):
+                    okk = all(pat.eval_term(pt.at(blk.idx, None).of_operand(blk.term.args[1]), leaf_for(slot)) == (slot >> 1) - 1 - 4 for slot in range(14, 64))
+                    if okk:
+                        r.ok("evaluation", {"slots >= 14": "slot/2 - 5 direct bits"})
+                    else:
+                        r.bad("decode_distance|direct-bits", "slots >= 14 do not read slot/2 - 5 direct bits", pat.where(dis, blk.idx))
+                if nm.endswith("BitTree::parse") and pat.has_field(tm.of_operand(blk.term.args[0]), "pos_slot_decoder"):
+                    recv = pt.at(blk.idx, None).of_operand(blk.term.args[0])
+                    idx = [q for q in _sub(recv) if q[0] == "index"]
+                    vals = None
+                    # the index operand is a local (len_state): gated evaluation over the match length
+                    for s2 in dis.blocks[blk.idx].stmts:
+                        pass
+                    ilocal = None
+                    for blk2 in dis.blocks:
+                        for s2 in blk2.stmts:
+                            if s2.k == "assign" and s2.rv.k == "ref" and any(pr[0] == "index" for pr in s2.rv.place.proj) and \
+                                    any(pr[0] == "field" and pr[2] == "pos_slot_decoder" for pr in s2.rv.place.proj):
+                                ilocal = [pr[1] for pr in s2.rv.place.proj if pr[0] == "index"][0]
+                                ibb = blk2.idx
+                    if ilocal is not None:
+                        vals = [pat.eval_gated(dis, pt, ilocal, ibb, leaf_for(0, L)) for L in range(0, 12)]
+                    if vals == [min(L, 3) for L in range(0, 12)]:
+                        r.ok("evaluation", {"slot tree": "pos_slot_decoder[min(len, 3)]"})
+                    else:
+                        r.bad("decode_distance|len-state", "the slot tree is not selected by min(len, 3): %s" % vals, pat.where(dis, blk.idx))
+            except (pat.NotEvaluable, pat.Overflow) as ex:
+                r.bad("decode_distance|args:%s" % nm.split("::")[-1], "cannot evaluate the arguments of %s" % nm.split("::")[-1], pat.where(dis, blk.idx), "unverifiable")
     return r
 
 
